@@ -102,12 +102,15 @@ CLAIMS = {
         technique="Coq proof (Aggregation.v: model = specification) + differential correspondence U2/T4",
         design="6/C11"),
     "C12": dict(
-        text="General theorems for the arithmetic builders (wthh = hh*100+flag, bg within fg, no collisions below 100 rows). Bounded "
+        text="General theorems for the arithmetic builders (wthh = hh*100+flag, bg within fg, no collisions below 100 rows). UNBOUNDED "
+             "theorems for the partner-based builders (CoupleSpec.v: for tables of any size with unique non-negative p_ids and symmetric "
+             "partner pointers, two rows share an eg / ehe / sn id exactly when they are the same person or point to each other (sn: and "
+             "both are jointly assessed); hence the partitions are row-order free; hypotheses evaluated on every U3 table). Bounded "
              "exhaustive theorems discharged by vm_compute on every run: for every well-formed pointer structure of up to 3 persons and "
              "every row order, fg/eg/ehe/sn partitions equal the reference partition (connected components of the unit definitions), "
              "with a proved refutation of the unrepaired fg builder. U3 ties the model to groupings.py (ids equal, numbering included) "
              "and checks the real builders against an independent reference exhaustively up to 3 (thorough 4) persons in all orders.",
-        technique="Coq proof (general for wthh/bg; bounded-exhaustive vm_compute for fg/eg/ehe/sn) + exhaustive differential correspondence U3",
+        technique="Coq proof (general for wthh/bg/eg/ehe/sn; bounded-exhaustive vm_compute for fg) + exhaustive differential correspondence U3",
         design="6/C12"),
     "C13": dict(
         text="Theorems (exact rational arithmetic): the documented factors; round trip = identity; composition; conversion commutes with "
@@ -205,7 +208,9 @@ CLAIMS["C19"] = dict(
 CLAIMS["C20"] = dict(
     text="Theorems on the model of the input checks and of the coercion: accepted data have unique p_ids, valid non-self pointers, "
          "group-constant group-level inputs and no duplicate column names (each fault class => rejection); a successful conversion never "
-         "changes a numeric value (for all values), with a proved refutation of unchecked int->float beyond 2^53. Tie: U9 compares "
+         "changes a numeric value (for all values), with a proved refutation of unchecked int->float beyond 2^53; the tax-unit builder "
+         "rejects a table exactly when two spouses' joint-assessment flags differ, for tables of any size and any row positions "
+         "(CoupleSpec.sn_id_accepts_iff). Tie: U9 compares "
          "convert_cell / accept with the real converter / checks; fault injection of every fault class (and pairs) through the public "
          "API at random rows must raise; dtype variants must leave all results unchanged and warn.",
     technique="Coq proof (Validation.v) + differential correspondence U9 + fault injection through the public API",
